@@ -3,7 +3,7 @@
    each file once), Proofs/LayersGroups.v (co-location, order invariance), Proofs/LayersChain.v (stack invariant, well-formed layers),
    Proofs/LayersExtract.v (the extractor read path-wise), Proofs/LayersFlatten.v. *)
 From Apko Require Import Base.Prelude Model.Tar Spec.TarSpec Model.Layers Spec.LayersSpec Proofs.LayersProofs
-  Proofs.LayersChain Proofs.LayersExtract Proofs.LayersFlatten Proofs.LayersGroups Proofs.LayersValid.
+  Proofs.LayersChain Proofs.LayersExtract Proofs.LayersFlatten Proofs.LayersLinks Proofs.LayersGroups Proofs.LayersValid.
 From Coq Require Import Sorting.Permutation Sorting.Sorted.
 Open Scope string_scope. Open Scope list_scope.
 
@@ -197,30 +197,39 @@ Theorem c10_layers_wellformed : forall gs own es layers,
 Proof. exact split_wellformed_spec. Qed.
 Print Assumptions c10_layers_wellformed.
 
-(* c10_flatten: for every sequence in the envelope WITHOUT hard-link entries,
-   every grouping and every ownership map that gives no directory an owner
-   (tarfs: MkdirAll creates directories without a tar entry, so
+(* c10_flatten (FULL): for every sequence in the envelope — hard-link entries
+   included, provided each link's target is the path of an earlier
+   non-directory entry with the same owner (LinksWithTarget; what tarfs
+   produces) — every grouping and every ownership map that gives no directory
+   an owner (tarfs: MkdirAll creates directories without a tar entry, so
    memFileInfo.Package() is nil for them): if splitLayers returns, the reference
    extractor accepts the layers applied in order, accepts the single layer, and
    both give the same tree (canonical child order; every node's type, content,
-   mode, owner, mtime, xattrs, link target).  Directories ARE re-emitted in
-   package layers with the triggering file's mtime; the top layer is applied
-   last and carries every directory with its true metadata, which is what the
-   proof uses (the last entry written at each path is the walk's entry).
+   mode, owner, mtime, xattrs, link target, hard-link sharing).  Directories
+   ARE re-emitted in package layers with the triggering file's mtime; the top
+   layer is applied last and carries every directory with its true metadata,
+   which is what the proof uses (the last entry written at each path is the
+   walk's entry; a link is resolved against its target in the same layer).
    Both side conditions are necessary in the model:
      c10_flatten_owned_directory_refuted — a directory owned by a package loses its mtime;
      c10_flatten_split_hardlink_refuted  — a hard link written by an earlier layer
-       than its target cannot be applied in order.
-   NOT covered (hence hard links are excluded): sequences with hard-link entries
-   whose target has the same owner (the only case tarfs produces: a link shares
-   its target's node and therefore its package); computed per run by layers_tags. *)
+       than its target cannot be applied in order. *)
 Theorem c10_flatten : forall gs own es layers,
+  WalkSeq es -> LinksWithTarget own es ->
+  (forall e, In e es -> is_dir e = true -> own (e_path e) = None) ->
+  split_layers gs own es = Ok layers ->
+  exists a b, apply_layers layers = Ok a /\ extract es = Ok b /\ canon_forest a = canon_forest b.
+Proof. exact split_flatten_links_spec. Qed.
+Print Assumptions c10_flatten.
+
+(* without hard-link entries the condition on links is vacuous *)
+Theorem c10_flatten_linkfree : forall gs own es layers,
   WalkSeq es -> (forall e, In e es -> e_kind e <> KLink) ->
   (forall e, In e es -> is_dir e = true -> own (e_path e) = None) ->
   split_layers gs own es = Ok layers ->
   exists a b, apply_layers layers = Ok a /\ extract es = Ok b /\ canon_forest a = canon_forest b.
 Proof. exact split_flatten_spec. Qed.
-Print Assumptions c10_flatten.
+Print Assumptions c10_flatten_linkfree.
 
 (* the same for the walk of a tree in the C06 envelope (distinct child names, no
    additional hard-link names, xattrs only on regular files and directories):
@@ -251,11 +260,34 @@ Print Assumptions c10_flatten_split_hardlink_refuted.
 
 (* everything the specification asks of the layers, together *)
 Theorem c10_layers_ok : forall gs own es layers,
-  NoDup (List.concat gs) -> WalkSeq es -> (forall e, In e es -> e_kind e <> KLink) ->
+  NoDup (List.concat gs) -> WalkSeq es -> LinksWithTarget own es ->
   (forall e, In e es -> is_dir e = true -> own (e_path e) = None) ->
   split_layers gs own es = Ok layers -> LayersOk gs own es layers.
-Proof. exact split_layers_ok. Qed.
+Proof.
+  intros gs own es layers Hnd W Hl Hd H. destruct (c10_each_file_once gs own es layers Hnd H) as [Hlen [Hf _]].
+  split; [| split; [| split]].
+  - exact (c10_flatten gs own es layers W Hl Hd H).
+  - exact Hf.
+  - exact (c10_layers_wellformed gs own es layers W H).
+  - exact Hlen.
+Qed.
 Print Assumptions c10_layers_ok.
+
+(* LinksWithTarget is satisfiable with a real link: target and link owned by the same package *)
+Example c10_flatten_link_example :
+  let es := [w_dir ["d"] 5; w_reg ["d"; "b"] 8; w_lnk ["d"; "c"] "d/b"; w_reg ["e"] 9] in
+  let own p := if path_eqb p ["d"; "b"] then Some "a" else if path_eqb p ["d"; "c"] then Some "a"
+               else if path_eqb p ["e"] then Some "b" else None in
+  LinksWithTarget own es /\
+  exists layers a, split_layers [["b"]; ["a"]] own es = Ok layers /\ apply_layers layers = Ok a /\ extract es = Ok a.
+Proof.
+  split.
+  - intros pre x post E Hk.
+    destruct pre as [| p0 [| p1 [| p2 [| p3 pre]]]]; simpl in E; inversion E; subst; try discriminate Hk.
+    + exists (w_reg ["d"; "b"] 8). repeat split; simpl; auto.
+    + destruct pre; discriminate.
+  - vm_compute. do 2 eexists. repeat split; reflexivity.
+Qed.
 
 (* the hypotheses are satisfiable: a walk with shared and nested directories,
    two package layers and an unowned file *)
